@@ -13,6 +13,7 @@ CONSTANTS
   Srvs = {1}
   Ots <- OtsAll
   Coes <- CoesOne
+  Flts <- FltsOne
   SharedContextTable = FALSE
   ExpireSessions = TRUE
   RandArgs = FALSE
